@@ -770,3 +770,54 @@ def instance_tested_by_identity(ctx, rule):
         if not hits:
             ctx.ok(rule, g, g.node, "instance tested by identity only")
     ctx.require(n_funcs >= 40, "fewer than 40 namespace / descriptor functions examined (%d)" % n_funcs)
+
+
+def descendents_model(ctx, rule):
+    """param._utils.descendents interpreted abstractly on A; B(A); C(A); D(B, C); E(Mixin, C) -- the walk behind every
+    'drop the caches of all subclasses'.  Specification: every transitive subclass, and the class itself, exactly once
+    (D is listed by both of its bases; E's primary base is outside the hierarchy)."""
+    from engine.absint import Interp, Obj, Unsupported
+    from engine.loader import AnalysisError
+    f = ctx.repo.func("param._utils.descendents")
+    A, B, C, D, E, M = (Obj(n, __name__=n) for n in ("A", "B", "C", "D", "E", "Mixin"))
+    subs = {id(A): [B, C], id(B): [D], id(C): [D, E], id(D): [], id(E): [], id(M): [E]}
+    for k, base in ((A, None), (B, A), (C, A), (D, B), (E, M), (M, None)):
+        k.attrs["__base__"] = base
+    k_bases = {id(D): (B, C), id(E): (M, C)}
+
+    def hook(fn, args, kwargs):
+        recv = getattr(hook.it, "current_receiver", None)
+        if fn == "isinstance":
+            return True
+        if fn.endswith(".__subclasses__") and isinstance(recv, Obj):
+            return list(subs[id(recv)])
+        if fn == "_is_abstract":
+            return False
+        if fn in ("collections.deque", "deque"):
+            return list(args[0]) if args else []
+        if fn.endswith(".popleft") and isinstance(recv, list):
+            return recv.pop(0)
+        if fn.endswith(".appendleft") and isinstance(recv, list) and args:
+            recv.insert(0, args[0])
+            return None
+        return NotImplemented
+    hook.needs_receiver = True
+    it = Interp(ctx.hier, call_hook=hook, inline_module_functions=False, max_steps=40000)
+    hook.it = it
+    try:
+        outs = it.run_all(f, {"class_": A, "concrete": False})
+    except Unsupported as e:
+        raise AnalysisError("descendents model: absint cannot interpret descendents(): %s -- %s cannot decide" % (e, rule))
+    if len(outs) != 1 or outs[0].imprecise or outs[0].kind != "return" or not isinstance(outs[0].value, (list, tuple)):
+        raise AnalysisError("descendents model: descendents() is not interpretable precisely (%s) -- %s cannot decide" % (outs[0].notes[:2] if outs else "no outcome", rule))
+    ctx.abstract_cases += 1
+    got = list(outs[0].value)
+    names = [getattr(x, "name", repr(x)) for x in got]
+    missing = [k.name for k in (A, B, C, D, E) if not any(x is k for x in got)]
+    dup = [nme for nme in set(names) if names.count(nme) > 1]
+    if missing or dup or len(got) != 5:
+        ctx.fail(rule, f, f.node, "descendents(A) on A; B(A); C(A); D(B, C); E(Mixin, C) yields %s: %s -- the caches of those classes survive a change made on a secondary base, so their "
+                                  "`.param` keeps an outdated Parameter while attribute access follows the MRO" % (
+                                      names, ("missing " + ", ".join(missing)) if missing else ("listed twice: " + ", ".join(dup)) if dup else "unexpected members"), key=f.qualname + "::descendents-model")
+    else:
+        ctx.ok(rule, f, f.node, "descendents(A) yields every transitive subclass once (%s)" % ", ".join(names))
